@@ -80,3 +80,12 @@ pub assume_specification<T>[ std::cmp::max ](a: T, b: T) -> (r: T)
         vstd::std_specs::cmp::OrdSpec::cmp_spec(&a, &b) == core::cmp::Ordering::Greater ==> r == a,
         vstd::std_specs::cmp::OrdSpec::cmp_spec(&a, &b) != core::cmp::Ordering::Greater ==> r == b,
 ;
+
+/// S-10  core::cmp::min: the first argument unless the second is strictly smaller
+#[verifier::allow(undeclared_external_trait)]
+pub assume_specification<T>[ std::cmp::min ](a: T, b: T) -> (r: T)
+    where T: std::cmp::Ord + std::marker::Destruct,
+    ensures
+        vstd::std_specs::cmp::OrdSpec::cmp_spec(&a, &b) == core::cmp::Ordering::Greater ==> r == b,
+        vstd::std_specs::cmp::OrdSpec::cmp_spec(&a, &b) != core::cmp::Ordering::Greater ==> r == a,
+;
